@@ -429,6 +429,10 @@ def check_terminals(ctx: RuleCtx, model: NodeModel, bool_map: T.Dict[str, T.Any]
                     if any(cm.get(f'node.{f}', sub in tid) != (sub in tid) for f, sub in flags.items()):
                         continue     # this path does not serve that token id
                     if (pre, post) != strip[tid]:
+                        unexplained = [k for k in cm if k.startswith('node.') and k[5:] not in flags]
+                        if unexplained:
+                            raise Undecided(f'{qn}: the path `{p.describe()}` is selected by {unexplained}, which the constructor of {cls} does not '
+                                            f'define as `<constant> in token.tid`; cannot tell which token ids it serves')
                         ok = False
                         why = (f'for a `{tid}` token the printer adds {pre!r}...{post!r} on the path `{p.describe()}`; the lexer strips '
                                f'{strip[tid][0]!r}...{strip[tid][1]!r} from the matched text')
@@ -442,10 +446,14 @@ def tid_flags(model: NodeModel, cls: str) -> T.Dict[str, str]:
     for c in model.mro(cls):
         for fn in c.body:
             if isinstance(fn, ast.FunctionDef) and fn.name == '__init__':
+                defs = _single_defs(fn)
                 for st in walk_no_nested(fn):
+                    src = st.value.comparators[0] if isinstance(st, ast.Assign) and isinstance(st.value, ast.Compare) and len(st.value.comparators) == 1 else None
+                    if isinstance(src, ast.Name) and src.id in defs:
+                        src = defs[src.id]
                     if isinstance(st, ast.Assign) and (attr_chain(st.targets[0]) or '').startswith('self.') and isinstance(st.value, ast.Compare) \
                             and len(st.value.ops) == 1 and isinstance(st.value.ops[0], ast.In) and isinstance(st.value.left, ast.Constant) \
-                            and isinstance(st.value.left.value, str) and norm(st.value.comparators[0]).endswith('.tid'):
+                            and isinstance(st.value.left.value, str) and src is not None and norm(src).endswith('.tid'):
                         out[attr_chain(st.targets[0])[5:]] = st.value.left.value  # type: ignore[index]
     return out
 
